@@ -274,10 +274,11 @@ def callback_trace(script):
     out = []
     for items in [r[1] for r in script['reads'] if r[0] == 't'] + [script['close']]:
         for it in items:
+            it = list(it) if it[0] == 'raise' else list(it[:-2])      # positions are not part of the call
             if it[0] == 'd' and out and out[-1][0] == 'd':
                 out[-1] = ['d', out[-1][1] + it[1]]
             else:
-                out.append(list(it))
+                out.append(it)
     out.extend(list(r) for r in script['reads'] if r[0] != 't')
     return out
 
@@ -597,7 +598,7 @@ def _html_classes():
 
         def _note(self, item):
             if self.nested == 0:
-                self.cur.append(item)
+                self.cur.append(item + list(self.getpos()))
 
         def _call(self, fn, *a):
             self.nested += 1
@@ -695,9 +696,10 @@ def _html_classes():
             gi.HTMLParser.__init__(self, SynSource(script['reads']))
             self.script = script
             self.k = 0
+            self._scripted_pos = (1, 0)
 
         def getpos(self):
-            return (1, 0)
+            return self._scripted_pos
 
         def feed(self, data):
             while self.script['reads'][self.k][0] != 't':
@@ -712,6 +714,8 @@ def _html_classes():
         def play(self, items):
             for it in items:
                 k = it[0]
+                if k != 'raise':
+                    self._scripted_pos = (it[-2], it[-1])
                 if k == 'st':
                     self.handle_starttag(it[1], [(n, v) for n, v in it[2]])
                 elif k == 'et':
@@ -800,13 +804,17 @@ def ascii_lower(s):
     return ''.join(chr(ord(c) + 32) if 'A' <= c <= 'Z' else c for c in s)
 
 
+def pos_wire(it):
+    return [Atom(str(int(it[-2]))), Atom(str(int(it[-1])))]
+
+
 def html_item_wire(it):
     k = it[0]
     if k in ('st', 'se'):
-        return [Atom(k.upper()), it[1], [[n, N if v is None else v] for n, v in it[2]]]
+        return [Atom(k.upper()), it[1], [[n, N if v is None else v] for n, v in it[2]]] + pos_wire(it)
     if k == 'raise':
         return [Atom('RAISE'), it[1], B(it[2] if len(it) > 2 else is_exception_name(it[1]))]
-    return [Atom(k.upper()), it[1]]
+    return [Atom(k.upper()), it[1]] + pos_wire(it)
 
 
 def html_line(script):
@@ -831,10 +839,10 @@ def html_line(script):
     return proto.line(Atom('C07'), Atom('html'), reads, [html_item_wire(i) for i in script['close']], table)
 
 
-def outcome_wire(cevs, ex, exc_is_exception=True):
-    """what the real code did, in the answer vocabulary of the driver"""
+def outcome_wire(events, ex):
+    """what the real code did, in the answer vocabulary of the driver (events with their positions)"""
     gi, _ = genshi_mods()
-    evs = [wire_ev(c) for c in cevs]
+    evs = [[wire_ev(cev(e)), Atom(str(int(e[2][1]))), Atom(str(int(e[2][2])))] for e in events]
     if ex is None:
         return [evs, Atom('ok')]
     if isinstance(ex, gi.ParseError):
@@ -878,6 +886,9 @@ def _xml_classes():
             self.layer_raised = False
             self.dtd_default_calls = 0
 
+        def _xpos(self):
+            return [self.expat.CurrentLineNumber, self.expat.CurrentColumnNumber]
+
         def new_batch(self, more):
             if more:
                 self.cur = []
@@ -893,47 +904,47 @@ def _xml_classes():
                 self.in_dtd -= 1
 
         def _handle_start(self, tag, attrib):
-            self.cur.append(['se', tag, [[attrib[i], attrib[i + 1]] for i in range(0, len(attrib), 2)]])
+            self.cur.append(['se', tag, [[attrib[i], attrib[i + 1]] for i in range(0, len(attrib), 2)]] + self._xpos())
             return gi.XMLParser._handle_start(self, tag, attrib)
 
         def _handle_end(self, tag):
-            self.cur.append(['ee', tag])
+            self.cur.append(['ee', tag] + self._xpos())
             return gi.XMLParser._handle_end(self, tag)
 
         def _handle_data(self, text):
-            self.cur.append(['cd', text])
+            self.cur.append(['cd', text] + self._xpos())
             return gi.XMLParser._handle_data(self, text)
 
         def _handle_xml_decl(self, version, encoding, standalone):
-            self.cur.append(['xd', version, encoding, standalone])
+            self.cur.append(['xd', version, encoding, standalone] + self._xpos())
             return gi.XMLParser._handle_xml_decl(self, version, encoding, standalone)
 
         def _handle_doctype(self, name, sysid, pubid, has_internal_subset):
-            self.cur.append(['dt', name, sysid, pubid, bool(has_internal_subset)])
+            self.cur.append(['dt', name, sysid, pubid, bool(has_internal_subset)] + self._xpos())
             return gi.XMLParser._handle_doctype(self, name, sysid, pubid, has_internal_subset)
 
         def _handle_start_ns(self, prefix, uri):
-            self.cur.append(['ns', prefix, uri])
+            self.cur.append(['ns', prefix, uri] + self._xpos())
             return gi.XMLParser._handle_start_ns(self, prefix, uri)
 
         def _handle_end_ns(self, prefix):
-            self.cur.append(['ens', prefix])
+            self.cur.append(['ens', prefix] + self._xpos())
             return gi.XMLParser._handle_end_ns(self, prefix)
 
         def _handle_start_cdata(self):
-            self.cur.append(['sc'])
+            self.cur.append(['sc'] + self._xpos())
             return gi.XMLParser._handle_start_cdata(self)
 
         def _handle_end_cdata(self):
-            self.cur.append(['ec'])
+            self.cur.append(['ec'] + self._xpos())
             return gi.XMLParser._handle_end_cdata(self)
 
         def _handle_pi(self, target, data):
-            self.cur.append(['pi', target, data])
+            self.cur.append(['pi', target, data] + self._xpos())
             return gi.XMLParser._handle_pi(self, target, data)
 
         def _handle_comment(self, text):
-            self.cur.append(['cm', text])
+            self.cur.append(['cm', text] + self._xpos())
             return gi.XMLParser._handle_comment(self, text)
 
         def _handle_other(self, text):
@@ -968,6 +979,8 @@ def _xml_classes():
             o = self.owner
             for it in items:
                 k = it[0]
+                if k not in ('raise', 'xerr'):
+                    self.CurrentLineNumber, self.CurrentColumnNumber = it[-2], it[-1]
                 if k == 'se':
                     o._handle_start(it[1], [x for pair in it[2] for x in pair])
                 elif k == 'ee':
@@ -991,7 +1004,6 @@ def _xml_classes():
                 elif k == 'cm':
                     o._handle_comment(it[1])
                 elif k == 'df':
-                    self.CurrentLineNumber, self.CurrentColumnNumber = it[2], it[3]
                     o._handle_other(it[1])
                 elif k == 'xerr':
                     e = expat.error('scripted: line %d, column %d' % (it[1], it[2]))
@@ -1049,27 +1061,27 @@ def xml_item_wire(it):
     k = it[0]
     o = lambda x: N if x is None else x
     if k == 'se':
-        return [Atom('SE'), it[1], [[n, v] for n, v in it[2]]]
+        return [Atom('SE'), it[1], [[n, v] for n, v in it[2]]] + pos_wire(it)
     if k == 'ee':
-        return [Atom('EE'), it[1]]
+        return [Atom('EE'), it[1]] + pos_wire(it)
     if k == 'cd':
-        return [Atom('CD'), it[1]]
+        return [Atom('CD'), it[1]] + pos_wire(it)
     if k == 'xd':
-        return [Atom('XD'), it[1], o(it[2]), Atom(str(int(it[3])))]
+        return [Atom('XD'), it[1], o(it[2]), Atom(str(int(it[3])))] + pos_wire(it)
     if k == 'dt':
-        return [Atom('DT'), it[1], o(it[2]), o(it[3]), B(it[4])]
+        return [Atom('DT'), it[1], o(it[2]), o(it[3]), B(it[4])] + pos_wire(it)
     if k == 'ns':
-        return [Atom('NS'), o(it[1]), o(it[2])]
+        return [Atom('NS'), o(it[1]), o(it[2])] + pos_wire(it)
     if k == 'ens':
-        return [Atom('ENS'), o(it[1])]
+        return [Atom('ENS'), o(it[1])] + pos_wire(it)
     if k in ('sc', 'ec'):
-        return Atom(k.upper())
+        return [Atom(k.upper())] + pos_wire(it)
     if k == 'pi':
-        return [Atom('PI'), it[1], it[2]]
+        return [Atom('PI'), it[1], it[2]] + pos_wire(it)
     if k == 'cm':
-        return [Atom('CM'), it[1]]
+        return [Atom('CM'), it[1]] + pos_wire(it)
     if k == 'df':
-        return [Atom('DF'), it[1], Atom(str(it[2])), Atom(str(it[3]))]
+        return [Atom('DF'), it[1]] + pos_wire(it)
     if k == 'xerr':
         return [Atom('XERR'), Atom(str(it[1])), Atom(str(it[2]))]
     if k == 'raise':
@@ -1104,7 +1116,7 @@ def gen_syn_html(rng, tags_ok_only=False):
             out.append([n, v])
         return out
 
-    def item():
+    def item0():
         r = rng.random()
         tags = [t for t in SYN_TAGS if not t.startswith('{')] if tags_ok_only else SYN_TAGS
         if r < 0.3:
@@ -1126,6 +1138,10 @@ def gen_syn_html(rng, tags_ok_only=False):
         if r < 0.97:
             return ['decl', rng.choice(['DOCTYPE html', 'x'])]
         return ['raise', rng.choice(['ValueError', 'AssertionError', 'RecursionError', 'NotAnException'])]
+
+    def item():
+        it = item0()
+        return it if it[0] == 'raise' else it + [rng.randrange(1, 60), rng.randrange(0, 200)]
 
     reads = []
     for _ in range(rng.choice([0, 1, 1, 2, 3, 4])):
@@ -1166,14 +1182,14 @@ def cut_script(script):
 def gen_syn_xml(rng):
     names = ['a', 'u}a', 'b', 'http://www.w3.org/1999/xhtml}p', 'u}v}w', '{a', '}', '']
 
-    def item():
+    def item0():
         r = rng.random()
         if r < 0.22:
             return ['se', rng.choice(names), [[rng.choice(names), rng.choice(['', 'v', 'é'])] for _ in range(rng.choice([0, 0, 1, 2]))]]
         if r < 0.4:
             return ['ee', rng.choice(names)]
         if r < 0.6:
-            return ['cd', rng.choice(['', 'x', 'a\nb', '\n', 'é', ' '])]
+            return ['cd', rng.choice(['', 'x', 'a\nb', '\n', 'é', ' ', 'a\r\nb\n', 'x\x85y\n', '\u2028\n\n', 'a\rb', 'abc\x0bdef'])]
         if r < 0.64:
             return ['xd', '1.0', rng.choice([None, 'utf-8']), rng.choice([-1, 0, 1])]
         if r < 0.68:
@@ -1193,6 +1209,10 @@ def gen_syn_xml(rng):
         if r < 0.985:
             return ['xerr', rng.randrange(1, 9), rng.randrange(0, 80)]
         return ['raise', rng.choice(['ValueError', 'NotAnException'])]
+
+    def item():
+        it = item0()
+        return it if it[0] in ('raise', 'xerr', 'df') else it + [rng.randrange(1, 60), rng.randrange(0, 200)]
 
     reads = []
     for _ in range(rng.choice([0, 1, 1, 2, 3])):
@@ -1320,8 +1340,8 @@ def prefix_cases(rng, ndocs):
 # --------------------------------------------------------------------------
 # one case: oracle + what to send to the model
 
-HTML_ARITY = {'st': 3, 'se': 3, 'et': 2, 'd': 2, 'c': 2, 'pi': 2, 'cr': 2, 'er': 2, 'decl': 2}
-XML_ARITY = {'se': 3, 'ee': 2, 'cd': 2, 'xd': 4, 'dt': 5, 'ns': 3, 'ens': 2, 'sc': 1, 'ec': 1, 'pi': 3, 'cm': 2, 'df': 4, 'xerr': 3}
+HTML_ARITY = {'st': 5, 'se': 5, 'et': 4, 'd': 4, 'c': 4, 'pi': 4, 'cr': 4, 'er': 4, 'decl': 4}
+XML_ARITY = {'se': 5, 'ee': 4, 'cd': 4, 'xd': 6, 'dt': 7, 'ns': 5, 'ens': 4, 'sc': 3, 'ec': 3, 'pi': 5, 'cm': 4, 'df': 4, 'xerr': 3}
 
 
 def valid_script(script, arity):
@@ -1332,6 +1352,8 @@ def valid_script(script, arity):
         if it[0] == 'raise':
             return len(it) >= 2 and it[1] in EXC
         if arity.get(it[0]) != len(it):
+            return False
+        if it[0] != 'xerr' and not (isinstance(it[-1], int) and isinstance(it[-2], int)):
             return False
         if it[0] in ('st', 'se') and arity is HTML_ARITY:
             return isinstance(it[1], str) and all(isinstance(a, list) and len(a) == 2 and isinstance(a[0], str) for a in it[2])
@@ -1473,18 +1495,18 @@ def model_jobs(case):
                 plans.append(('chunk%d' % s, (lambda s_: (lambda: G.ChunkReader(text, s_)))(s)))
         for label, mk in plans:
             script, ev, ex = record_html(mk)
-            jobs.append(('html-recorded', script, html_line(script), outcome_wire([cev(e) for e in ev], ex), tags_ok(script)))
+            jobs.append(('html-recorded', script, html_line(script), outcome_wire(ev, ex), tags_ok(script)))
     elif k == 'html-bytes':
         data = bytes.fromhex(case['hex'])
         script, ev, ex = record_html(lambda: io.BytesIO(data), encoding=case['encoding'])
-        jobs.append(('html-recorded-bytes', script, html_line(script), outcome_wire([cev(e) for e in ev], ex), tags_ok(script)))
+        jobs.append(('html-recorded-bytes', script, html_line(script), outcome_wire(ev, ex), tags_ok(script)))
         script, ev, ex = record_html(lambda: io.BytesIO(data), encoding=None)
-        jobs.append(('html-recorded-bytes', script, html_line(script), outcome_wire([cev(e) for e in ev], ex), tags_ok(script)))
+        jobs.append(('html-recorded-bytes', script, html_line(script), outcome_wire(ev, ex), tags_ok(script)))
     elif k == 'syn-html':
         script = case['script']
         ev, ex = run_syn_html(script)
         line = html_line(script) if syn_html_modelled(script) else None
-        jobs.append(('html-scripted', script, line, outcome_wire([cev(e) for e in ev], ex), True))
+        jobs.append(('html-scripted', script, line, outcome_wire(ev, ex), True))
     elif k in ('xml-tree', 'xml-text'):
         text = G.write_xml(case['doc'], random.Random(case.get('wseed', 0))) if k == 'xml-tree' else case['text']
         plans = [lambda: io.StringIO(text)]
@@ -1492,11 +1514,11 @@ def model_jobs(case):
             plans.append(lambda: G.ChunkReader(text, 7 if len(text) < 3000 else 4095))
         for mk in plans:
             script, ev, ex, modelled = record_xml(mk, encoding='utf-8')
-            jobs.append(('xml-recorded', script, xml_line(script) if modelled else None, outcome_wire([cev(e) for e in ev], ex), True))
+            jobs.append(('xml-recorded', script, xml_line(script) if modelled else None, outcome_wire(ev, ex), True))
     elif k == 'syn-xml':
         script = case['script']
         ev, ex = run_syn_xml(script)
-        jobs.append(('xml-scripted', script, xml_line(script), outcome_wire([cev(e) for e in ev], ex), True))
+        jobs.append(('xml-scripted', script, xml_line(script), outcome_wire(ev, ex), True))
     return jobs
 
 
@@ -1590,11 +1612,12 @@ FIXED = [
     {'kind': 'xml-text', 'text': '<a><b></a></b>'},
     {'kind': 'xml-text', 'text': '<a>x</a><b/>'},
     {'kind': 'xml-text', 'text': '<a xmlns:p="u"><q:b/></a>'},
-    {'kind': 'syn-html', 'script': {'reads': [['t', [['st', '{br', []], ['d', 'x']]]], 'close': []}},
-    {'kind': 'syn-html', 'script': {'reads': [['t', [['st', 'BR', []], ['et', 'br'], ['et', 'Br']]]], 'close': []}},
-    {'kind': 'syn-html', 'script': {'reads': [['t', [['st', 'a', []]]], ['t', [['d', 'x'], ['raise', 'ValueError']]]], 'close': []}},
-    {'kind': 'syn-html', 'script': {'reads': [['t', [['st', 'a', []], ['d', 'x']]], ['t', [['d', 'y']]], ['b']], 'close': []}},
-    {'kind': 'syn-xml', 'script': {'reads': [['t', [['se', 'a', []], ['cd', 'x']]], ['t', [['df', '&nbsp;', 1, 4], ['cd', 'y'], ['df', '&junk;', 3, 9]]]], 'close': []}},
+    {'kind': 'syn-html', 'script': {'reads': [['t', [['st', '{br', [], 1, 0], ['d', 'x', 1, 5]]]], 'close': []}},
+    {'kind': 'syn-html', 'script': {'reads': [['t', [['st', 'BR', [], 1, 0], ['et', 'br', 1, 4], ['et', 'Br', 2, 0]]]], 'close': []}},
+    {'kind': 'syn-html', 'script': {'reads': [['t', [['st', 'a', [], 1, 0]]], ['t', [['d', 'x', 1, 3], ['raise', 'ValueError']]]], 'close': []}},
+    {'kind': 'syn-html', 'script': {'reads': [['t', [['st', 'a', [], 1, 0], ['d', 'x', 1, 3]]], ['t', [['d', 'y', 2, 7]]], ['b']], 'close': []}},
+    {'kind': 'syn-html', 'script': {'reads': [['t', [['st', 'a', [], 3, 1], ['st', 'b', [], 3, 4]]], ['t', [['d', 'x', 4, 0], ['d', 'y', 5, 2]]]], 'close': [['c', 'z', 9, 9]]}},
+    {'kind': 'syn-xml', 'script': {'reads': [['t', [['se', 'a', [], 1, 0], ['cd', 'x', 1, 4]]], ['t', [['df', '&nbsp;', 1, 4], ['cd', 'y\nz\n', 3, 0], ['df', '&junk;', 3, 9]]]], 'close': []}},
 ]
 
 
@@ -1629,7 +1652,8 @@ def load_corpus():
         with open(p) as f:
             d = json.load(f)
         out.extend(d if isinstance(d, list) else [d])
-    return out
+    return [c for c in out if c.get('kind') not in ('syn-html', 'syn-xml')
+            or valid_script(c.get('script'), HTML_ARITY if c['kind'] == 'syn-html' else XML_ARITY)]
 
 
 def search(ctx, res, broken):
